@@ -192,6 +192,8 @@ def collapse_roles(cc):
             r["cur"] = name
         elif "acc" in r and u == f"{r['acc']}[-1]":
             r["prev"] = name
+    if "first" not in r and "acc" in r:
+        r["first"] = "__first__"  # no local names the first candle: it is acc[0] wherever it is used (bound for the rules in check_collapse)
     missing = [k for k in ("acc", "tf", "first", "start", "end", "cur") if k not in r]
     if missing:
         raise AnalysisError(f"{cc.where}: cannot identify the collapse walk's {missing} (accumulator / window / popped candle): the shape of collapse_candles changed; re-derive the rule")
@@ -253,6 +255,12 @@ def check_collapse(prop: str, res: Result, repo: Repo, want=("R-INTERVAL", "R-CO
     st0.env.update({"self": Obj("obj", "self")})
     st0.env[ACC] = Obj("list", "candles_")
     pre_paths = it.block(pre, st0)
+    if FIRST == "__first__":
+        for s, _ in pre_paths:
+            try:
+                s.env[FIRST] = it.expr(ast.parse(f"{ACC}[0]", mode="eval").body, s)
+            except Exception:
+                pass
     live = [(s, o) for s, o in pre_paths if o is None]
     if "R-INTERVAL" in want:
         for s, _ in live:
